@@ -16,7 +16,7 @@ oracle  : judged against the property text, no Lean involved:
           directory, checks the module path in {absent, complete old, complete new} and constructs a fresh
           Template which must render the CURRENT source;
       (c) 2-8 processes constructing the same Template concurrently; all must render the current source;
-      (d) same-second rewrite with bytecode caching enabled (finding F-C15-2).
+      (d) same-second rewrite with bytecode caching enabled (the history of the repaired finding F-C15-2).
 """
 from __future__ import annotations
 
@@ -30,11 +30,12 @@ import tempfile
 import time
 
 RULE = ("histories of <= 12 ops over {touch source newer/older/equal (relative to the module's mtime), delete "
-        "module, replace module by one with another _magic_number (fresh or stale mtime), construct, construct "
+        "module, replace module by one with another _magic_number and/or generated from another template file "
+        "(fresh, equal or stale mtime), construct, construct "
         "with a raising or short-writing primitive in either write group, construct with a module_writer hook "
         "(installing / doing nothing)}; a history is non-trivial when it contains a reuse and a rewrite; distinct "
         "= distinct op-token sequences.  Fault enumeration: start states {no module, stale module, other magic "
-        "number, stale + missing directory} x every call k of the write group x {kill before, kill after, kill "
+        "number, generated from another file, stale + missing directory} x every call k of the write group x {kill before, kill after, kill "
         "midway (write), raise, short write}.  Concurrency: 2..8 processes x start states x rounds.")
 ASSUMPTIONS = [
     "POSIX rename within one directory is atomic and mkstemp names are unique (the OS's part of the property)",
@@ -809,14 +810,7 @@ def hist_tokens(hist):
 
 
 def ask_many(ctx, lines):
-    """driver batch; the binary is relinked now and then by concurrent builds of the shared tree: retry briefly"""
-    for attempt in range(40):
-        try:
-            return ctx.driver().ask_many(lines)
-        except (FileNotFoundError, PermissionError, OSError) as e:
-            if attempt == 39:
-                raise
-            time.sleep(0.5)
+    return ctx.driver().ask_many(lines)
 
 
 def ask(ctx, line):
